@@ -407,7 +407,10 @@ func (l Linter) Lint(ctx context.Context) (report.Report, error) {
 		}
 	}
 
-	if len(allAggregates) > 0 {
+	// aggregate rules may report on the absence of aggregated data (e.g. no-defined-entrypoint), so
+	// the aggregate report must run whenever more than one file was linted, not only when some
+	// enabled rule happened to contribute aggregates
+	if len(allAggregates) > 0 || (len(l.overriddenAggregates) == 0 && len(input.FileNames) > 1) {
 		aggregateReport, err := l.lintWithRegoAggregateRules(ctx, &pq, allAggregates, regoReport.IgnoreDirectives)
 		if err != nil {
 			return report.Report{}, fmt.Errorf("failed to lint using Rego aggregate rules: %w", err)
